@@ -145,6 +145,16 @@ func (cl *h2Client) await(id uint32, timeout time.Duration) error {
 }
 
 func runH2(c *h.Case, s *h2Spec) {
+	// a positive control that fails without an authentication refusal (lost work connection on a loaded
+	// machine) is repeated once on a new connection before it counts
+	if runH2Once(c, s, 0, false) {
+		time.Sleep(time.Second)
+		run.Count("positive_control_retries", 1)
+		runH2Once(c, s, 100, true)
+	}
+}
+
+func runH2Once(c *h.Case, s *h2Spec, base int, final bool) (controlFailed bool) {
 	e := env(s.Streams[0].T.Server)
 	conn, err := net.DialTimeout("tcp", fmt.Sprintf("127.0.0.1:%d", e.HTTPPort), 5*time.Second)
 	if err != nil {
@@ -157,7 +167,7 @@ func runH2(c *h.Case, s *h2Spec) {
 	tags := make([]string, len(s.Streams))
 	linesOf := make([][]hdrLine, len(s.Streams))
 	for i, st := range s.Streams {
-		tags[i] = tagFor(c, i)
+		tags[i] = tagFor(c, base+i)
 		linesOf[i] = st.lines()
 		register(c, tags[i], linesOf[i], vhostKey(false, s.Mode == "prior" || i > 0, linesOf[i]), nil)
 	}
@@ -259,13 +269,45 @@ func runH2(c *h.Case, s *h2Spec) {
 			}
 			run.Count("h2c_challenges_checked", 1)
 		}
+		// positive control: a stream with the plain exact credentials is served by the right backend
+		if st.T.Control != "" && st.Method == "GET" && statuses[i] != -2 && len(linesOf[i]) == 1 && linesOf[i][0].Name == "authorization" &&
+			linesOf[i][0].Value == "Basic "+b64(st.T.Focus.User+":"+st.T.Focus.Pass) {
+			good := statuses[i] == 200 && hdrs[i] != nil && hdrs[i].Get("X-Verif-Backend") == st.T.Control
+			seenCtl := false
+			for _, id := range ids {
+				if id == st.T.Control {
+					seenCtl = true
+				}
+			}
+			if !good || !seenCtl {
+				if statuses[i] == 401 || final {
+					key := "vhost-http-exact-credentials-refused"
+					if s.Mode == "prior" || i > 0 {
+						key = "vhost-http-h2c-stream-not-checked" // streams are not routed / checked on their own
+					}
+					by := ""
+					if hdrs[i] != nil {
+						by = hdrs[i].Get("X-Verif-Backend")
+					}
+					c.Violation(key, "h2c (%s) request #%d with the exact credentials %v to %s: status %d, answered by %q, backends that saw it %v (want %s)",
+						s.Mode, i, st.T.Focus, st.T.Host, statuses[i], by, ids, st.T.Control)
+				} else {
+					controlFailed = true
+				}
+			}
+			if base == 0 {
+				run.Count("h2c_positive_controls", 1)
+			}
+		}
 		sig = append(sig, fmt.Sprintf("%s:%s:%s:%s", st.T.Table, st.Method, kindsSig(st.A), kindsSig(st.PA)))
-		_ = ids
 	}
-	run.Distinct("h2c|" + s.Mode + "|" + strings.Join(sig, ","))
-	if c.Idx%997 == 0 {
-		run.Sample(map[string]any{"surface": "vhost-h2c", "mode": s.Mode, "streams": s.Streams, "statuses": statuses})
+	if base == 0 {
+		run.Distinct("h2c|" + s.Mode + "|" + strings.Join(sig, ","))
+		if c.Idx%997 == 0 {
+			run.Sample(map[string]any{"surface": "vhost-h2c", "mode": s.Mode, "streams": s.Streams, "statuses": statuses})
+		}
 	}
+	return controlFailed
 }
 
 func genH2(rng *rand.Rand) []spec {
